@@ -271,8 +271,8 @@ class MindsDBLexer(Lexer):
     SEMICOLON = r'\;'
 
     # Operators
-    JSON_GET = r'->'
     JSON_GET_STR = r'->>'
+    JSON_GET = r'->'
     PLUS = r'\+'
     MINUS = r'-'
     MATCH = r'~'
